@@ -26,6 +26,13 @@ type program struct {
 	thorough bool     // only in the thorough tier
 	feats    []string // hit counters
 	redefAll bool     // additional modes redefall / compredefall: every definition that has an alternative is redefined, in order
+
+	sigx      string // appended to every signature of the program (tree family: nesting class, spelling, kind of callee)
+	regen     []int  // defgeneric forms that the modes regen:i / compregen:i evaluate again, followed by the alternative of the next definition (its method)
+	unbind    []int  // definitions that the modes unbind:i / compunbind:i make unbound (fmakunbound) and define again
+	macroDefs []int  // late callees that are MACROS: used before defined, only the differential oracle applies
+	macroTop  bool   // the main expression itself uses those macros
+	flavorDef int
 }
 
 // ctx wraps a call expression that returns a number.
@@ -379,7 +386,7 @@ func addMacros(out *[]*program) {
 	// mac4: macro used directly by the main expression
 	*out = append(*out, &program{fam: "macro", id: "macro:mac4:top", noEarly: true, feats: []string{"macro-use"},
 		defs:   []string{"(defmacro @m1 (ma) `(+ ,ma 1))", "(defun @f1 (x) (if t (* x 3) 0))"},
-		alts:   []string{"", "(defun @f1 (x) (if t (* x 4) 0))"},
+		alts:   []string{"(defmacro @m1 (ma) `(+ ,ma 100))", "(defun @f1 (x) (if t (* x 4) 0))"},
 		before: nil, main: "(+ (@m1 (tr 'k 4)) (@f1 (@m1 2)))"})
 }
 
@@ -439,6 +446,35 @@ func addVars(out *[]*program) {
 					"(defun @f1 (x) " + kc[2] + ")",
 					"(defun @f2 (y) " + c.wrap("(@f1 (* y 2))") + ")"},
 				alts: []string{"", "", "(defun @f1 (x) (+ 50000 " + kc[2] + "))", ""},
+				main: "(@f2 3)"})
+		}
+	}
+	// a caller REBINDS the variable with let around the call: the binding of a special variable is dynamic, the function
+	// sees it whether it was defined before or after the defvar; the second call shows that the binding was undone
+	for _, n := range names {
+		p := &program{fam: "var", id: "var:rebind:" + n, feats: []string{"defvar-read", "special-variable-rebound-by-caller"},
+			defs: []string{"(defvar *@v1* 7)",
+				"(defun @f1 (x) " + uses[n] + ")",
+				"(defun @f2 (y) (let ((*@v1* 500)) (@f1 (* y 2))))"},
+			alts: []string{"", "(defun @f1 (x) (list 300 " + uses[n] + "))", ""},
+			main: "(list (@f2 3) (@f1 1))"}
+		if n == "call" {
+			p.defs = append(p.defs, "(defun @f3 (p q) (if t (+ (* 10 p) q) 0))")
+			p.alts = append(p.alts, "")
+			p.thorough = true
+		}
+		*out = append(*out, p)
+	}
+	// the constant IS the body form of the function (a bare symbol is compiled differently from a symbol inside a call)
+	for _, kb := range [][2]string{{"number", "7"}, {"list", "'(north south east)"}} {
+		for _, cn := range []string{"body", "if", "letinit"} {
+			if kb[0] == "list" && cn == "letinit" {
+				continue
+			}
+			c := ctxByName(cn)
+			*out = append(*out, &program{fam: "var", id: "var:constant-bare:" + kb[0] + ":" + cn, feats: []string{"defvar-read", "constant-is-the-body-form"},
+				defs: []string{"(defconstant +@k1+ " + kb[1] + ")", "(defun @f1 (x) +@k1+)", "(defun @f2 (y) " + c.wrap("(@f1 (* y 2))") + ")"},
+				alts: []string{"", "(defun @f1 (x) (if t +@k1+ 0))", ""},
 				main: "(@f2 3)"})
 		}
 	}
@@ -691,6 +727,84 @@ func addData(out *[]*program) {
 	)
 }
 
+// addRec2: recursion through TWO functions that do not exist yet when the caller is defined: f1 -> f2 <-> f3, every edge
+// in the context under test, and every edge's argument holds a nested call of the OTHER late function
+// ((f3 (- pa (- (f2 0) 19)))): guard-clause termination, all 6 orders, every mode, fmakunbound of either function.
+func addRec2(out *[]*program) {
+	for ci := range ctxs {
+		c := &ctxs[ci]
+		p := &program{fam: "rec2", id: "rec2:" + c.name, thorough: !c.quick, feats: []string{"mutual-recursion", "recursion-through-two-late-functions", "self-recursion-guard-clause"}}
+		p.defs = []string{
+			"(defun @f1 (pa) " + callExpr(c, 2, []string{"(tr 'f1a1 pa)"}) + ")",
+			"(defun @f2 (pa) (if (< pa 1) (return-from @f2 (tr 'leaf2 (+ 20 pa)))) " + callExpr(c, 3, []string{"(tr 'f2a1 (- pa (- (@f3 0) 29)))"}) + ")",
+			"(defun @f3 (pa) (if (< pa 1) (return-from @f3 (tr 'leaf3 (+ 30 pa)))) " + callExpr(c, 2, []string{"(tr 'f3a1 (- pa (- (@f2 0) 19)))"}) + ")",
+		}
+		p.alts = []string{"", "(defun @f2 (qa) (tr 'leaf2-v2 (+ 50000 qa)))", "(defun @f3 (qa) (tr 'leaf3-v2 (+ 60000 qa)))"}
+		p.unbind = []int{1, 2}
+		p.main = "(@f1 3)"
+		if c.class == "hof" {
+			p.feats = append(p.feats, "function-designator")
+		}
+		*out = append(*out, p)
+	}
+}
+
+// addFbound: fboundp of a name that so far was only CALLED (a call of it was compiled): the stand-in made for the forward
+// reference is not a definition. main asks fboundp before it calls; the early modes evaluate it while only the caller exists.
+func addFbound(out *[]*program) {
+	for _, cn := range []string{"body", "arg", "if", "letinit", "lambda", "funcall-fn"} {
+		c := ctxByName(cn)
+		*out = append(*out, &program{fam: "fbound", id: "fbound:" + cn, feats: []string{"fboundp-of-a-name-that-was-only-called"},
+			defs:   []string{"(defun @f1 (pa) " + callExpr(c, 2, []string{"(tr 'f1a1 (+ pa 1))"}) + ")", "(defun @f2 (pa) (tr 'leaf (* pa 2)))"},
+			alts:   []string{"", "(defun @f2 (qa) (tr 'leaf-v2 (* qa 3)))"},
+			unbind: []int{1},
+			main:   "(list (if (fboundp '@f2) 1 0) (if (fboundp '@f2) (@f1 1) -1) (if (fboundp '@f1) 1 0))"})
+	}
+}
+
+// addCase: function names written with capital letters. Names are case-insensitive: a function defined as LateFn is the
+// function latefn, whichever spelling the definition and the call use and whichever comes first.
+func addCase(out *[]*program) {
+	for _, sp := range [][3]string{{"both", "@LateFn", "@LateFn"}, {"def", "@LateFn", "@latefn"}, {"call", "@latefn", "@LateFn"}} {
+		for _, cn := range []string{"body", "arg", "if", "letinit", "funcall-fn", "funcall-sym"} {
+			arg := "(tr 'f1a1 (+ pa 1))"
+			var call string
+			switch cn {
+			case "funcall-fn":
+				call = "(funcall #'" + sp[2] + " " + arg + ")"
+			case "funcall-sym":
+				call = "(funcall '" + sp[2] + " " + arg + ")"
+			default:
+				call = ctxByName(cn).wrap("(" + sp[2] + " " + arg + ")")
+			}
+			*out = append(*out, &program{fam: "case", id: "case:" + sp[0] + ":" + cn, feats: []string{"mixed-case-function-name"},
+				defs:   []string{"(defun @f1 (pa) " + call + ")", "(defun " + sp[1] + " (qa) (tr 'leaf (* qa 2)))"},
+				alts:   []string{"", "(defun " + sp[1] + " (ra) (tr 'leaf-v2 (* ra 3)))"},
+				unbind: []int{1},
+				main:   "(@f1 2)"})
+		}
+	}
+}
+
+// addStruct: the late callee is made by DEFSTRUCT (a keyword constructor and slot readers): the caller may be defined,
+// and called, before the structure is. No redefinition: the consequences of redefining a structure are undefined (CLHS).
+func addStruct(out *[]*program) {
+	for _, cn := range []string{"body", "arg", "if", "letinit", "lambda", "cond", "progn"} {
+		c := ctxByName(cn)
+		inner := "(@s-b (make-@s :a (tr 'k1 pa) :b (@s-a (make-@s :a (tr 'k2 (+ pa 5)) :b 1))))"
+		body := ""
+		if c.wrap != nil {
+			body = c.wrap(inner)
+		} else {
+			body = "(funcall (lambda (q) " + inner + ") 0)"
+		}
+		*out = append(*out, &program{fam: "struct", id: "struct:" + cn, feats: []string{"structure-functions-as-late-callees"},
+			defs: []string{"(defun @f1 (pa) " + body + ")", "(defstruct @s a b)"},
+			alts: []string{"(defun @f1 (pa) (+ 70000 " + body + "))", ""},
+			main: "(@f1 3)"})
+	}
+}
+
 var (
 	progOnce sync.Once
 	progList []*program
@@ -708,6 +822,10 @@ func allPrograms() []*program {
 		addKeys(&progList)
 		addGenerics(&progList)
 		addNested(&progList)
+		addRec2(&progList)
+		addFbound(&progList)
+		addCase(&progList)
+		addStruct(&progList)
 		progByID = map[string]*program{}
 		for _, p := range progList {
 			if _, dup := progByID[p.id]; dup {
@@ -765,6 +883,16 @@ func permString(p []int) string {
 
 func enumerate(tier string, emit func(string)) {
 	enumReeval(tier, emit)
+	enumQuoted(tier, emit)
+	enumMutdata(tier, emit)
+	enumBuiltins(tier, emit)
+	enumClassic(tier, emit)
+	enumTrees(tier, 0, 0, emit)
+	enumInert(tier, emit)
+}
+
+// enumClassic: the programs of the explicit list (allPrograms).
+func enumClassic(tier string, emit func(string)) {
 	for _, p := range allPrograms() {
 		if p.thorough && tier != engine.Thorough {
 			continue
